@@ -334,6 +334,44 @@ mod verif_proofs {
     truncated_at_instance!(c12_from_slice_at_truncated_16, 16);
     truncated_at_instance!(c12_from_slice_at_truncated_17, 17);
 
+    /// ED flagged but the extension map is missing (nothing after the header) or cut after its first
+    /// byte: rejected.  All header bytes symbolic, trailing bytes concrete (CBOR on symbolic bytes is
+    /// out of reach).
+    #[kani::proof]
+    #[kani::unwind(60)]
+    fn c12_from_slice_ed_missing() {
+        let body: [u8; 37] = kani::any();
+        let mut buf = [0u8; 37];
+        let mut i = 0;
+        while i < 37 {
+            buf[i] = body[i];
+            i += 1;
+        }
+        buf[32] = 0x81; // UP | ED
+        let r = AuthenticatorData::from_slice(&buf);
+        assert!(r.is_err());
+        kani::cover!(true);
+        core::mem::forget(r);
+    }
+
+    #[kani::proof]
+    #[kani::unwind(60)]
+    fn c12_from_slice_ed_cut() {
+        let body: [u8; 37] = kani::any();
+        let mut buf = [0u8; 38];
+        let mut i = 0;
+        while i < 37 {
+            buf[i] = body[i];
+            i += 1;
+        }
+        buf[32] = 0x81; // UP | ED
+        buf[37] = 0xA1; // map(1) with no entry following
+        let r = AuthenticatorData::from_slice(&buf);
+        assert!(r.is_err());
+        kani::cover!(true);
+        core::mem::forget(r);
+    }
+
     /// reserved flag bits (1 and 5) are rejected: all 256 bytes at the flags level, three instances
     /// at the from_slice level
     #[kani::proof]
